@@ -7,7 +7,7 @@ S=/verif/seeded/$1; P=$2; TIER=${3:-quick}
 export GOFLAGS=-mod=mod GOPROXY=off
 WT=$(mktemp -d /tmp/seedwt_XXXX); rmdir $WT
 git -C /repo worktree add -q $WT HEAD || exit 2
-cleanup() { git -C /repo worktree remove --force $WT 2>/dev/null; git -C /repo checkout -q -- . ; }
+cleanup() { git -C /repo worktree remove --force $WT 2>/dev/null; }
 trap cleanup EXIT
 DEMO=$(ls $S/*_test.go | head -1); PKG=$(cat $S/pkgdir 2>/dev/null || echo v2)
 if [ "${SKIP_CONFIRM:-0}" != 1 ]; then
@@ -18,7 +18,9 @@ if [ "${SKIP_CONFIRM:-0}" != 1 ]; then
   rm $WT/$PKG/$(basename $DEMO)
   (cd $WT/v2 && go test -vet=off -count=1 . ./jd >/tmp/seed_suite.log 2>&1 && cd $WT && go test -vet=off -count=1 . ./lib >>/tmp/seed_suite.log 2>&1) && echo "CONFIRM existing tests pass with the change" || { echo "CONFIRM-FAIL existing tests fail with the change"; tail -5 /tmp/seed_suite.log; }
 fi
-git -C /repo apply $S/patch.diff || exit 2
-cd /verif && timeout 3000 ./verif check $P --tier $TIER > /tmp/seed_check.log 2>&1; rc=$?
-git -C /repo checkout -q -- .
+# the check runs against the scratch worktree (VERIF_REPO), /repo itself is not touched
+if [ "${SKIP_CONFIRM:-0}" = 1 ]; then git -C $WT apply $S/patch.diff || exit 2; fi
+OUTD=$(mktemp -d /tmp/seedout_XXXX)
+cd /verif && VERIF_REPO=$WT VERIF_OUT=$OUTD timeout 3000 ./verif check $P --tier $TIER > /tmp/seed_check_$1.log 2>&1; rc=$?
+cp /tmp/seed_check_$1.log /tmp/seed_check.log; rm -rf $OUTD
 echo "CHECK $P $TIER exit=$rc"; grep -c "^VIOLATION" /tmp/seed_check.log; grep "^VIOLATION\|engine:\|BROKEN\|INCONCL" /tmp/seed_check.log | head -6 | cut -c1-300
